@@ -150,6 +150,8 @@ fn chunk_cases(tier: Tier) -> Vec<ChunkCase> {
                     let mut cfg = crate::sorter_util::SorterCfg::scaled(1 << 14, 1 << 10, realloc, chunks, false);
                     cfg.block_size = b;
                     cfg.index_levels = levels;
+                    // both builder orders: settings applied after, and before, `.chunk_creator(..)`
+                    cfg.settings_first = chunks == 2;
                     for (n, klen, vlen) in [(600usize, 6usize, 100usize), (200, 400, 8)] {
                         if tier == Tier::Quick && (levels == Some(0) || (b == Some(4096) && !realloc)) {
                             continue;
